@@ -207,6 +207,30 @@ impl Arena {
     }
 }
 
+/// Read-only accessors for model comparison. Only compiled with `--cfg naijascript_verif`.
+#[cfg(naijascript_verif)]
+impl Arena {
+    /// Size of the committed prefix in bytes.
+    pub fn verif_commit(&self) -> usize {
+        self.commit.get()
+    }
+
+    /// Size of the reservation in bytes.
+    pub fn verif_capacity(&self) -> usize {
+        self.capacity
+    }
+
+    /// Address of the first byte of the reservation.
+    pub fn verif_base(&self) -> usize {
+        self.base.as_ptr() as usize
+    }
+
+    /// Commit granularity in bytes.
+    pub const fn verif_chunk_size() -> usize {
+        ALLOC_CHUNK_SIZE
+    }
+}
+
 impl Drop for Arena {
     fn drop(&mut self) {
         if !self.is_empty() {
